@@ -182,16 +182,27 @@ def r3(ctx):
     ctx.floor(R, 3)
 
 
+def _schedule_fn(ctx):
+    """the method of the fixture's Scheduler that files a delayed packet: the one that inserts into Scheduler::pending (by role, not by name)"""
+    out = []
+    for fb in ctx.w.find(r"^turmoil_net::fixture::scheduler::Scheduler::\w+$"):
+        if any(_on_field(fb, t["args"][0], "turmoil_net::fixture::scheduler::Scheduler::pending")
+               for bb, t in fb.calls(re.compile(r"^std::vec::Vec::(insert|push)$|VecDeque::(insert|push_back)$")) if t["args"]):
+            out.append(fb.id)
+    return out[0] if len(out) == 1 else None
+
+
 def r4(ctx):
     R = "C19-R4"
     ctx.rule(R, "Scheduler::tick verdict routing and Scheduler::schedule ordering: Drop reaches no deliver/schedule; Deliver(d) with d != 0 "
                 "reaches schedule (not deliver); schedule inserts at binary_search_by((deliver_at, seq)) with seq from next_seq (+1 per call); "
                 "ready prefix = position(deliver_at > now); pending is drained from the front")
     b = ctx.body(R, "turmoil_net::fixture::scheduler::Scheduler::tick")
+    SCHED = _schedule_fn(ctx)
     if b:
         ves = [v for v in variant_edges(b, lambda p: True) if v[3] == "turmoil_net::rule::Verdict"]
         dl = [bb for bb, t in b.calls(re.compile(r"EnterGuard::deliver$"))]
-        sc = [bb for bb, t in b.calls("turmoil_net::fixture::scheduler::Scheduler::schedule")]
+        sc = [bb for bb, t in b.calls(SCHED or "turmoil_net::fixture::scheduler::Scheduler::schedule")]
         nx = [bb for bb, t in b.calls(re.compile(r"vec::Drain as std::iter::Iterator>::next$"))]
         if ves:
             sbb, m, els, adt, pl = ves[0]
@@ -216,15 +227,22 @@ def r4(ctx):
         # due prefix
         fam = ctx.w.family(b.id)
         okpos = False
+        DA_, NOW_ = "field:turmoil_net::fixture::scheduler::Scheduled::deliver_at", "field:turmoil_net::fixture::scheduler::Scheduler::now"
+        # `position(|s| s.deliver_at > now)` (first not-yet-due element) or `take_while(|s| s.deliver_at <= now).count()` (length of the due prefix)
+        pos = list(b.calls(re.compile(r"Iterator>::position$|^std::iter::Iterator::position$")))
+        tw = list(b.calls(re.compile(r"Iterator>::take_while$|^std::iter::Iterator::take_while$")))
+        want = {"gt": (DA_, NOW_), "lt": (NOW_, DA_)} if pos else {"le": (DA_, NOW_), "ge": (NOW_, DA_)} if tw and any(True for _ in b.calls(re.compile(r"Iterator::count$|Iterator>::count$"))) else {}
+        if not pos:
+            pos = tw
         for fb in fam:
             if fb.id == b.id:
                 continue
-            for bb, t in fb.calls(re.compile(r"PartialOrd>::gt$|^std::cmp::PartialOrd::gt$")):
+            for bb, t in fb.calls(re.compile(r"PartialOrd>::(gt|lt|le|ge)$|^std::cmp::PartialOrd::(gt|lt|le|ge)$")):
                 a0 = Slicer(ctx.w).atoms(fb, t["args"][0])
                 a1 = Slicer(ctx.w).atoms(fb, t["args"][1])
-                if "field:turmoil_net::fixture::scheduler::Scheduled::deliver_at" in a0 and "field:turmoil_net::fixture::scheduler::Scheduler::now" in a1:
+                w_ = want.get(t["f"].rsplit("::", 1)[1])
+                if w_ and w_[0] in a0 and w_[1] in a1 and w_[1] not in a0 and w_[0] not in a1:
                     okpos = True
-        pos = list(b.calls(re.compile(r"Iterator>::position$|^std::iter::Iterator::position$")))
         dr = [t for bb, t in b.calls(re.compile(r"^std::vec::Vec::drain$")) if _on_field(b, t["args"][0], "turmoil_net::fixture::scheduler::Scheduler::pending")]
         ctx.inst(R, "tick:due-prefix", okpos and len(pos) == 1 and len(dr) == 1, b.span, "due packets = prefix before the first deliver_at > now, drained front to back" if okpos and pos and dr else
                  "the due prefix is not computed as position(|s| s.deliver_at > now) and drained from the front")
@@ -243,8 +261,11 @@ def r4(ctx):
         okadv = len(adv) == 1 and bool(pos) and all(b.dominated_by_block(x, adv[0]) for x, _ in pos) and any(a.startswith("arg:3:") for a in Slicer(ctx.w).atoms(b, b.term(adv[0])["args"][1]))
         ctx.inst(R, "tick:clock-advances-first", okadv, b.span, "now += dt happens before due packets are selected" if okadv else
                  "Scheduler::tick does not advance `now` by dt before selecting due packets (deliveries slip by a tick)")
-    s = ctx.body(R, "turmoil_net::fixture::scheduler::Scheduler::schedule")
+    s = ctx.body(R, SCHED or "turmoil_net::fixture::scheduler::Scheduler::schedule")
     if s:
+        # the delay is the Duration parameter, wherever it is declared
+        dpos = [k + 1 for k, ti in enumerate(ctx.w.fns[s.id]["inputs"]) if ctx.w.tys[s.crate][ti]["s"].endswith("Duration")] if s.id in ctx.w.fns else []
+        DARG = f"arg:{dpos[0]}:" if len(dpos) == 1 else "arg:3:"
         SEARCH = re.compile(r"binary_search_by$|binary_search_by_key$|partition_point$|Iterator>::position$|^std::iter::Iterator::position$")
         bs = list(s.calls(SEARCH))
         ins = [t for bb, t in s.calls(re.compile(r"^std::vec::Vec::(insert|push)$|VecDeque::(insert|push_back)$")) if _on_field(s, t["args"][0], "turmoil_net::fixture::scheduler::Scheduler::pending")]
@@ -277,7 +298,7 @@ def r4(ctx):
         for bb, t in s.calls(re.compile(r"Instant as std::ops::Add>::add$|Duration as std::ops::Add>::add$|Duration::saturating_add$|Duration::checked_add$")):
             a0 = Slicer(ctx.w).atoms(s, t["args"][0])
             a1 = Slicer(ctx.w).atoms(s, t["args"][1])
-            if "field:turmoil_net::fixture::scheduler::Scheduler::now" in a0 and any(a.startswith("arg:3:") for a in a1):
+            if "field:turmoil_net::fixture::scheduler::Scheduler::now" in a0 and any(a.startswith(DARG) for a in a1):
                 da = True
         ctx.inst(R, "schedule:deadline", da, s.span, "deadline = now + delay" if da else "deadline is not now + delay")
     ctx.floor(R, 7)
@@ -316,7 +337,7 @@ def r6(ctx):
     ctx.rule(R, "deadline arithmetic does not overflow: Scheduler::schedule computes the delivery deadline `now + delay` with a saturating "
                 "/ checked addition - `Deliver(d)` accepts any Duration, and with the panicking `+` a rule that holds packets 'for ever' "
                 "(Duration::MAX) aborts the whole simulation instead of parking the packet")
-    s = ctx.body(R, "turmoil_net::fixture::scheduler::Scheduler::schedule")
+    s = ctx.body(R, _schedule_fn(ctx) or "turmoil_net::fixture::scheduler::Scheduler::schedule")
     if not s:
         return
     adds = [(bb, t) for bb, t in s.calls(re.compile(r"Duration as std::ops::Add>::add$|Instant as std::ops::Add<.*>>::add$|::saturating_add$|::checked_add$"))
